@@ -388,6 +388,93 @@ theorem tie_flushOptsStrings : flushOptsStrings =
     ["names := dn.sortedNames()",
     "names = filenames"] := rfl
 
+/-! ### the loader (every saved text is read back through it) -/
+
+/-- loadManifest: trailing newline, stream name first, locator vs file token by `:`, ParseInt checks (incl. the `offset+length < offset` wrap test), the `.` marker special case (`fnode == nil && err == nil && length == 0`), rewind `pos > offset`, the range loop with its skip / stop / clip tests, `next > offset+length` break, past-the-end error, the three per-line errors (Model: `C10.fsLoad`, which C09 uses to reload every saved text and which `C09_marker_line_loads` / `C09_marshal_fsLoad_partial` are about) -/
+theorem tie_loadManifestConds : loadManifestConds =
+    ["if streams[len(streams)-1] != \"\"",
+    "if i == 0",
+    "if !strings.Contains(token, \":\")",
+    "if anyFileTokens",
+    "if len(toks) < 2",
+    "if err != nil || length < 0",
+    "if len(segments) == 0",
+    "if len(toks) != 3",
+    "if err != nil || offset < 0",
+    "if err != nil || length < 0 || offset+length < offset",
+    "if fnode == nil && err == nil && length == 0",
+    "if err != nil || (fnode == nil && length != 0)",
+    "if pos > offset",
+    "for segIdx < len(segments)",
+    "if next <= offset || seg.Len() == 0",
+    "if pos >= offset+length",
+    "if pos < offset",
+    "if pos+int64(blkOff+blkLen) > offset+length",
+    "if blkLen > 0",
+    "if next > offset+length",
+    "if segIdx == len(segments) && pos < offset+length",
+    "if !anyFileTokens",
+    "if len(segments) == 0",
+    "if dirname == \"\""] := rfl
+
+/-- loadManifest bookkeeping: the cursor (`segIdx, pos = 0, 0`; `pos = next` on skip and after a fully used block, NOT before the break), block offset/length clipping -/
+theorem tie_loadManifestAssigns : loadManifestAssigns =
+    ["segments := []storedSegment{}",
+    "segments = segments[:0]",
+    "dirname = manifestUnescape(token)",
+    "segments = append(segments, storedSegment{ locator: token, size: int(length), offset: 0, length: int(length), })",
+    "anyFileTokens = true",
+    "segIdx, pos = 0, 0",
+    "segIdx++",
+    "next := pos + int64(seg.Len())",
+    "pos = next",
+    "blkOff = int(offset - pos)",
+    "blkLen := seg.Len() - blkOff",
+    "blkLen = int(offset + length - pos - int64(blkOff))",
+    "pos = next"] := rfl
+
+/-- createFileAndParents: `""`/`.` skipped, `..` only below the root, missing parents created, a file in the way is an error, basename `.` = directory marker (returns nil, nil), permittedName, existing file re-used, directory in the way is an error (Model: `C10.createFileAndParents` / `walkParents`) -/
+theorem tie_createFileConds : createFileConds =
+    ["switch name",
+    "case \"\"",
+    "case \".\"",
+    "case \"..\"",
+    "if node == dn",
+    "if child == nil",
+    "if err != nil",
+    "if !child.IsDir()",
+    "if err != nil",
+    "if basename == \".\"",
+    "if !permittedName(basename)",
+    "case nil",
+    "if err != nil",
+    "case *filenode",
+    "case *dirnode",
+    "default"] := rfl
+
+/-- createFileAndParents return values in source order -/
+theorem tie_createFileReturns : createFileReturns =
+    ["nil, ErrInvalidArgument",
+    "nil, err",
+    "child, nil",
+    "child, ErrFileExists",
+    "child, nil",
+    "",
+    "",
+    "",
+    "nil, err",
+    "child, nil",
+    "child, nil",
+    "child, ErrIsDirectory",
+    "child, ErrInvalidArgument",
+    ""] := rfl
+
+/-- Collection.FileSystem: throttle of concurrentWriters, loadManifest on the fresh root, backdateTree -/
+theorem tie_fileSystemCalls : fileSystemCalls =
+    ["newThrottle",
+    "root.loadManifest",
+    "backdateTree"] := rfl
+
 /-! ### the model's constants are the source's literals -/
 
 /-- the empty-block locator the model writes for a stream without data -/
